@@ -346,3 +346,10 @@ def bc_clean(bc):
     for k, v in bc.items():
         out[k] = list(v) if isinstance(v, list) else v
     return out
+
+
+def mesh_from_faces(xf):
+    """1-D mesh with exactly these face coordinates (public morphing constructor; pre-image length = image length)"""
+    import flowdyn.mesh as fmesh
+    xf = np.array(xf, dtype=float)
+    return fmesh.morphedmesh(ncell=len(xf) - 1, length=float(xf[-1] - xf[0]), x0=float(xf[0]), morph=lambda x, _xf=xf: _xf.copy())
